@@ -1,7 +1,8 @@
 (* C08 - MapSpec parsing, printing, shapes and index maps are mutually consistent.
    Only statements here; every proof is `exact <lemma>` into Proofs/. *)
 From Verif Require Import Base.Prelude Base.Index Model.MapSpec Model.MapSpecSpec
-  Proofs.IndexFacts Proofs.MapSpecFacts Proofs.MapSpecParse Proofs.MapSpecShape.
+  Proofs.IndexFacts Proofs.MapSpecFacts Proofs.MapSpecParse Proofs.MapSpecShape Corr.Run_C08 Proofs.C08Corr
+  Model.MapSpecAxes Model.XrLabelSpec Proofs.MapSpecAxesFacts.
 
 (* over linear indices 0..N-1, output_key visits every output position exactly once in row-major order
    (all_indices is itertools.product of the ranges; it has no duplicates and length prod sh) *)
@@ -154,3 +155,59 @@ Example C08_example_spaced :
   /\ er_side L' = er_side L /\ er_side R' = er_side R
   /\ pr_spaced (Dots (s " ") []) R' = s " ...->q[i,j ]  ".
 Proof. exact parse_spaced_instance. Qed.
+
+(* CAPSTONE: for EVERY correspondence case (parse / build + round trip / shape / all keys / rename / add_axes / direct
+   index calls / translator obligations) the observation computed by the model satisfies the executable statement
+   `spec_ok` that the harness applies to the implementation's observations.  Together with corr_bad = 0 (the
+   implementation's observation equals the model's on every generated case) this is what makes a green run mean
+   "the implementation satisfies the statement on the generated cases AND the model satisfies it on all cases".
+   No guard is needed: on cases outside the property's quantifier (ill-formed base spec, duplicate names, zero
+   dimensions, wrong rank) spec_ok demands nothing or demands an error, and the model raises one. *)
+Theorem C08_model_meets_spec : forall c, Run_C08.spec_ok c (Run_C08.run c) = true.
+Proof. exact model_meets_spec. Qed.
+Print Assumptions C08_model_meets_spec.
+
+(* the two rank checks (output_key: number of distinct input indices; input_keys: number of external indices) agree on
+   well-formed specs with distinct output indices *)
+Theorem C08_rank_checks_agree : forall m,
+  wf_decl m = true -> NoDup (output_indices m) -> length (external_indices m) = n_input_indices m.
+Proof. exact ext_len_input_indices. Qed.
+Print Assumptions C08_rank_checks_agree.
+
+(* validate_consistent_axes accepts exactly the lists of MapSpecs that name every array consistently (two occurrences
+   of one array name: same rank, same index name wherever both name a position) *)
+Theorem C08_validate_consistent_axes_iff : forall specs,
+  validate_consistent_axes specs = Ok tt <-> consistent (all_aspecs specs) = true.
+Proof. exact validate_iff_consistent. Qed.
+Print Assumptions C08_validate_consistent_axes_iff.
+
+(* after validate_consistent_axes passes, mapspec_axes has for every array one entry per dimension, agreeing with every
+   occurrence on every named position; an entry is a name only if some occurrence writes it there (':'-only
+   dimensions are None); mapspec_dimensions gives the rank *)
+Theorem C08_consistent_axes_sound : forall specs,
+  validate_consistent_axes specs = Ok tt ->
+  forall a, In a (all_aspecs specs) ->
+    exists ax, dict_get (mapspec_axes specs) (aname a) = Some ax
+      /\ length ax = rank a
+      /\ (forall i x, nth_error (axes a) i = Some (Some x) -> nth_error ax i = Some (Some x))
+      /\ (forall i x, nth_error ax i = Some (Some x) ->
+            exists b, In b (all_aspecs specs) /\ aname b = aname a /\ nth_error (axes b) i = Some (Some x))
+      /\ dict_get (mapspec_dimensions specs) (aname a) = Some (rank a).
+Proof. exact consistent_axes_sound. Qed.
+Print Assumptions C08_consistent_axes_sound.
+
+(* non-vacuity: "x[i, :] -> y[i]" and "x[:, j], y[i] -> z[i, j]" are consistent; x gets (i, j), and the
+   ':'-only second dimension of w in "w[i, :] -> y[i]" is None *)
+Example C08_example_axes :
+  let A n ax := {| aname := n; axes := ax |} in
+  let m1 := {| ins := [A (s "x") [Some (s "i"); None]]; outs := [A (s "y") [Some (s "i")]] |} in
+  let m2 := {| ins := [A (s "x") [None; Some (s "j")]; A (s "y") [Some (s "i")]];
+               outs := [A (s "z") [Some (s "i"); Some (s "j")]] |} in
+  let m3 := {| ins := [A (s "w") [Some (s "i"); None]]; outs := [A (s "y") [Some (s "i")]] |} in
+  validate_consistent_axes [m1; m2; m3] = Ok tt
+  /\ dict_get (mapspec_axes [m1; m2; m3]) (s "x") = Some [Some (s "i"); Some (s "j")]
+  /\ dict_get (mapspec_axes [m1; m2; m3]) (s "w") = Some [Some (s "i"); None]
+  /\ dict_get (mapspec_dimensions [m1; m2; m3]) (s "x") = Some 2
+  /\ validate_consistent_axes [m1; {| ins := [A (s "x") [Some (s "j"); None]]; outs := [A (s "z") [Some (s "j")]] |}]
+     = Err ValueError.
+Proof. vm_compute. repeat split; reflexivity. Qed.
